@@ -305,6 +305,15 @@ func doPrepare(e *evalfilter.Eval, optimize bool) (err error, esc *Escaped) {
 	return
 }
 
+// under runs f with ctx receiving the simulated clock's ticks.
+func under(ctx *verifsim.SimContext, f func()) {
+	if ctx == nil {
+		f()
+		return
+	}
+	ctx.Do(f)
+}
+
 // doDump returns the text Dump() prints.
 func doDump(e *evalfilter.Eval) (text string, err error, esc *Escaped) {
 	verifsim.CaptureStdout()
